@@ -1583,7 +1583,7 @@ func Run(seed int64, tier, out string) {
 		for pi := range prefixes {
 			hs = append(hs, exhaustive(gen, fmt.Sprintf("exh2-p%d", pi), pi, alphabetWide, 2)...)
 		}
-		for i := 0; i < 150; i++ {
+		for i := 0; i < 120; i++ {
 			hs = append(hs, randomHistory(gen, classes[i%5], 60))
 		}
 	}
